@@ -85,6 +85,9 @@ pub fn now_ns() -> u64 {
         .unwrap_or(0)
 }
 
+/// what is left of the time this process may spend waiting for a responsive host
+static WAIT_BUDGET_MS: std::sync::atomic::AtomicU64 = std::sync::atomic::AtomicU64::new(90_000);
+
 /// Confirm-by-repeat (DESIGN.md §2.5): a deviation whose signature is timing-dependent is a
 /// violation only if the same case deviates with the same signature in every one of `n`
 /// immediate re-executions (each in a fresh child, by the caller's `rerun`) *and* the host is
@@ -121,10 +124,19 @@ pub fn confirm_repeat(
         if host_responsive() {
             return o;
         }
+        // waiting is bounded per process (all shards together): 90 s in all, 20 s at a time;
+        // once that is spent, deviations on an oversubscribed host are left undecided at once
+        let left = WAIT_BUDGET_MS.load(std::sync::atomic::Ordering::SeqCst);
+        if left == 0 {
+            break;
+        }
         eprintln!("[timing] deviation repeated on an oversubscribed host (round {round}); waiting for the host before confirming again: {sig}");
-        let _ = wait_until_responsive(Duration::from_secs(45));
+        let t = Instant::now();
+        let _ = wait_until_responsive(Duration::from_millis(left.min(20_000)));
+        let spent = t.elapsed().as_millis() as u64;
+        let _ = WAIT_BUDGET_MS.fetch_update(std::sync::atomic::Ordering::SeqCst, std::sync::atomic::Ordering::SeqCst, |b| Some(b.saturating_sub(spent.max(1))));
     }
-    eprintln!("[timing] undecided: the host stayed oversubscribed through 3 confirmation rounds (not a violation): {sig} :: {msg0}");
+    eprintln!("[timing] undecided: the host stayed oversubscribed while this deviation was being confirmed (not a violation): {sig} :: {msg0}");
     o.fail = None;
     o.transient = true;
     o
